@@ -8,7 +8,7 @@ use crate::stack::{Pre, Spec};
 use crate::types::*;
 
 pub const NAME_POOL: &[&str] = &[
-    "a", "ab", "a.b", "a.", "b.txt", ".h", "...", "..a", "ü", "日本", "€x", "A", "a b", "x", "c", "d1", "Ab", "b", "..\\outside.txt", "a\\b", "b_wo.c",
+    "a", "ab", "a.b", "a.", "b.txt", ".h", "...", "..a", "ü", "日本", "€x", "A", "a b", "x", "c", "d1", "Ab", "b", "..\\outside.txt", "a\\b", "b_wo.c", ".whiteouts",
     // a component close to the 255-byte limit of most filesystems (legal everywhere)
     "LLLLLLLLLLLLLLLLLLLLLLLLLLLLLLLLLLLLLLLLLLLLLLLLLLLLLLLLLLLLLLLLLLLLLLLLLLLLLLLLLLLLLLLLLLLLLLLLLLLLLLLLLLLLLLLLLLLLLLLLLLLLLLLLLLLLLLLLLLLLLLLLLLLLLLLLLLLLLLLLLLLLLLLLLLLLLLLLLLLLLLLLLLLLLLLLLLLLLLLLLLLLLLLLLLLLLLLLLLLLLLLLLLLLLLLLLLLLLLLLLLLLLL.ext",
 ];
